@@ -204,10 +204,14 @@ def monitor (d : DSt) (s' : St) (op : Op) (impl : String) : Mon × String :=
           | some b => (m, some b)
           | none =>
             if m.sticky && (st == .connecting || st == .idle) then
-              -- who caused it: a SubConn created after the failure report (an address the resolver added) or an old one
+              -- who caused it, from the balancer's own bookkeeping as the tied model has it: a SubConn that is not
+              -- marked failed (effectiveState ≠ TRANSIENT_FAILURE: created for a new address, or one that failed only
+              -- after the first pass) or one that is
               let who := match op with
-                | .sc id _ _ => if id > m.stickySerial then s!" on a report of SubConn {id}, created for an address added after the failure"
-                                else s!" on a report of SubConn {id}, which existed when the failure was reported"
+                | .sc id _ _ => match activeSC d.s id with
+                  | some sc => if sc.eff != ConnState.tf then s!" on a report of SubConn {id} whose effectiveState {sc.eff.letter} is not TRANSIENT_FAILURE"
+                               else s!" on a report of SubConn {id} although its effectiveState is TRANSIENT_FAILURE"
+                  | none => s!" on a report of obsolete SubConn {id}"
                 | _ => ""
               (m, some s!"VIOL {if st == .connecting then "CONNECTING" else "IDLE"} reported while in sticky TRANSIENT_FAILURE (no SubConn became READY){who}")
             else
